@@ -92,7 +92,8 @@ og   == <<refs, dead, uaf, pl>>
 mvars == <<ring, sm, wk, pc, reg, gh, og>>
 
 NoTgt == [j \in Ids |-> MAX]
-NoReg == [op |-> "none", v |-> 0, sid |-> 0, i |-> 0, slot |-> 0, lenb |-> 0, val |-> 0, res |-> "", rv |-> 0, tgt |-> NoTgt, k |-> 0, snap |-> {}, n |-> 0, hv |-> 0, ps |-> 0]
+NoReg == [op |-> "none", v |-> 0, sid |-> 0, i |-> 0, slot |-> 0, lenb |-> 0, val |-> 0, res |-> "", rv |-> 0, tgt |-> NoTgt, k |-> 0, snap |-> {}, n |-> 0, hv |-> 0, ps |-> 0,
+          t |-> 0, mx |-> 0, acc |-> {}, left |-> 0, run |-> 0, open |-> FALSE]
 
 RECURSIVE SortedSeq(_)
 SortedSeq(set) == IF set = {} THEN <<>> ELSE LET m == CHOOSE x \in set : \A y \in set : x <= y IN <<m>> \o SortedSeq(set \ {m})
@@ -486,7 +487,7 @@ SyncUnlock(p) ==   \* streams_lock store(false); create / drop return
 -----------------------------------------------------------------------------
 \* cancel_all_streams: every possible id (not the live list -- see the fixed entry FX-C07 in known_findings.json)
 
-XAfterWake(p) == IF reg[p].i + 1 < MaxS THEN "X1" ELSE "cret"
+XAfterWake(p) == IF reg[p].i + 1 < MaxS THEN "X1" ELSE IF reg[p].op = "close" THEN "Q1" ELSE "cret"     \* end_all_streams goes on to wait for the streams to be gone
 CancelNext(p) ==   \* [y sm.used.read]
     /\ pc[p] = "X1"
     /\ pc' = [pc EXCEPT ![p] = "X2"]
@@ -515,6 +516,90 @@ CancelWakeUnlock(p) ==
     /\ pc' = [pc EXCEPT ![p] = XAfterWake(p)] /\ reg' = [reg EXCEPT ![p].i = @ + 1]
     /\ UNCHANGED <<ring, sm, waker, keep, notified, gh, og>>
 
+
+-----------------------------------------------------------------------------
+\* close: gracefully_end_all_streams(Duration::ZERO) = end_all_streams, then is_channel_open() and running_streams_count() (what the harness asks)
+\*   flush: pending_items_count() = the longest of the listed listeners' rings (for each entry of the list up to the first MAX:
+\*          tail.load - head.load); > 0 -> wake_stream(id) for every id, sleep 1 ms, again;  = 0 -> cancel_all_streams;
+\*   then while used_streams_count.load > 0: sleep 1 ms
+\* the entry of the list is read (a plain read, no scheduling point) in the step that precedes the loads on its ring
+FlushStart(p, rg) == LET id == used[0] IN
+                     IF id = MAX THEN <<"X1", [rg EXCEPT !.i = 0]>>                  \* no listener listed: nothing pending, cancel_all_streams begins
+                     ELSE <<"FL1", [rg EXCEPT !.sid = id, !.i = 0, !.mx = 0]>>
+CallClose(p) ==
+    /\ pc[p] = "idle"
+    /\ LET rg == [NoReg EXCEPT !.op = "close", !.acc = done] IN
+       /\ pc' = [pc EXCEPT ![p] = FlushStart(p, rg)[1]]
+       /\ reg' = [reg EXCEPT ![p] = FlushStart(p, rg)[2]]
+    /\ UNCHANGED <<ring, sm, wk, gh, og>>
+CloseLenTail(p) ==
+    /\ pc[p] = "FL1"
+    /\ reg' = [reg EXCEPT ![p].t = rt[reg[p].sid]]
+    /\ pc' = [pc EXCEPT ![p] = "FL2"]
+    /\ UNCHANGED <<ring, sm, wk, gh, og>>
+CloseLenHead(p) ==     \* the ring's length; on to the next listed listener, or the flush decides
+    /\ pc[p] = "FL2"
+    /\ LET len == Sub(reg[p].t, rh[reg[p].sid])
+           mx  == IF len > reg[p].mx THEN len ELSE reg[p].mx
+           j   == reg[p].i + 1 IN
+       IF j < MaxS /\ used[j] # MAX
+       THEN /\ reg' = [reg EXCEPT ![p].mx = mx, ![p].i = j, ![p].sid = used[j]]
+            /\ pc' = [pc EXCEPT ![p] = "FL1"]
+       ELSE /\ reg' = [reg EXCEPT ![p].mx = mx, ![p].i = 0, ![p].k = 0]
+            /\ pc' = [pc EXCEPT ![p] = IF mx > 0 THEN "FW1" ELSE "X1"]
+    /\ UNCHANGED <<ring, sm, wk, gh, og>>
+\* wake_all_streams: wake_stream(k) for every id k, then the sleep
+FAfterWake(p) == IF reg[p].k + 1 < MaxS THEN "FW1" ELSE "SL1"
+CloseWakePeek(p) ==
+    /\ pc[p] = "FW1"
+    /\ IF waker[reg[p].k] # NoW
+       THEN /\ notified' = Wake(reg[p].k, notified)
+            /\ pc' = [pc EXCEPT ![p] = FAfterWake(p)] /\ reg' = [reg EXCEPT ![p].k = @ + 1]
+       ELSE UNCHANGED <<notified, reg>> /\ pc' = [pc EXCEPT ![p] = "FW2"]
+    /\ UNCHANGED <<ring, sm, waker, wlock, keep, gh, og>>
+CloseWakeLock(p) ==
+    /\ pc[p] = "FW2" /\ ~wlock
+    /\ wlock' = TRUE
+    /\ notified' = Wake(reg[p].k, notified)
+    /\ pc' = [pc EXCEPT ![p] = "FW3"]
+    /\ UNCHANGED <<ring, sm, waker, keep, reg, gh, og>>
+CloseWakeUnlock(p) ==
+    /\ pc[p] = "FW3"
+    /\ wlock' = FALSE
+    /\ pc' = [pc EXCEPT ![p] = FAfterWake(p)] /\ reg' = [reg EXCEPT ![p].k = @ + 1]
+    /\ UNCHANGED <<ring, sm, waker, keep, notified, gh, og>>
+\* a sleep of one of the two polling loops is over
+CloseSlept(p) ==
+    /\ pc[p] \in {"SL1", "SL2"}
+    /\ IF pc[p] = "SL1"
+       THEN pc' = [pc EXCEPT ![p] = FlushStart(p, reg[p])[1]] /\ reg' = [reg EXCEPT ![p] = FlushStart(p, reg[p])[2]]
+       ELSE pc' = [pc EXCEPT ![p] = "Q1"] /\ UNCHANGED reg
+    /\ UNCHANGED <<ring, sm, wk, gh, og>>
+CloseRunLoad(p) ==     \* while running_streams_count() > 0 { sleep }
+    /\ pc[p] = "Q1"
+    /\ pc' = [pc EXCEPT ![p] = IF count > 0 THEN "SL2" ELSE "Q2"]
+    /\ UNCHANGED <<ring, sm, wk, reg, gh, og>>
+CloseRunRet(p) ==      \* the value end_all_streams returns; the caller's is_channel_open() begins
+    /\ pc[p] = "Q2"
+    /\ reg' = [reg EXCEPT ![p].left = count, ![p].k = 0]
+    /\ pc' = [pc EXCEPT ![p] = "O1"]
+    /\ UNCHANGED <<ring, sm, wk, gh, og>>
+CloseOpenRead(p) ==    \* is_any_stream_running: [y sm.keep.read] per id until one says yes; then the caller's running_streams_count()
+    /\ pc[p] = "O1"
+    /\ IF keep[reg[p].k]
+       THEN reg' = [reg EXCEPT ![p].open = TRUE] /\ pc' = [pc EXCEPT ![p] = "O2"]
+       ELSE IF reg[p].k + 1 < MaxS
+       THEN reg' = [reg EXCEPT ![p].k = @ + 1] /\ UNCHANGED pc
+       ELSE pc' = [pc EXCEPT ![p] = "O2"] /\ UNCHANGED reg
+    /\ UNCHANGED <<ring, sm, wk, gh, og>>
+CloseRunning(p) ==
+    /\ pc[p] = "O2"
+    /\ reg' = [reg EXCEPT ![p].run = count, ![p].res = "closed"]
+    /\ pc' = [pc EXCEPT ![p] = "cret"]
+    /\ UNCHANGED <<ring, sm, wk, gh, og>>
+CloseStep(p) == \/ CloseLenTail(p) \/ CloseLenHead(p) \/ CloseWakePeek(p) \/ CloseWakeLock(p) \/ CloseWakeUnlock(p)
+                \/ CloseRunLoad(p) \/ CloseRunRet(p) \/ CloseOpenRead(p) \/ CloseRunning(p)
+
 -----------------------------------------------------------------------------
 \* return of the API-level operation (not a scheduling point of its own: the thread gets here within its last step)
 ChanRet(p) ==
@@ -541,13 +626,13 @@ ChanStep(p) == \/ FanRead(p) \/ EnqFA(p) \/ EnqLoadHead(p) \/ EnqRecedeOk(p) \/ 
                \/ DropWLock(p) \/ DropWUnlock(p) \/ DropCountA(p) \/ DropCountB(p) \/ DropVPush(p) \/ DropVUnlock(p)
                \/ SyncLock(p) \/ SyncWrite(p) \/ SyncUnlock(p)
                \/ CancelNext(p) \/ CancelClear(p) \/ CancelWakePeek(p) \/ CancelWakeLock(p) \/ CancelWakeUnlock(p)
-               \/ OgreStep(p)
+               \/ OgreStep(p) \/ CloseStep(p)
 
 -----------------------------------------------------------------------------
 \* invariants of the channel itself
 
 InvRingBounds == \A r \in Ids : Sub(rt[r], rh[r]) <= N /\ Signed(Sub(re[r], rt[r])) >= 0
-InvLocks == /\ wlock <=> (\E p \in Procs : pc[p] \in {"W3", "R3", "XW3", "P2"})
+InvLocks == /\ wlock <=> (\E p \in Procs : pc[p] \in {"W3", "R3", "XW3", "P2", "FW3"})
             /\ slock <=> (\E p \in Procs : pc[p] \in {"Y2", "Y3"})
             /\ vlock <=> (\E p \in Procs : pc[p] \in {"C4", "C5", "C6", "P6"})
 InvNeverFull == \A p \in Procs : pc[p] # "full"
